@@ -86,24 +86,33 @@ CLAIMED["C13"] = (
     "(de)serialisations; each VarIntStrategy variant must decode with the helper family it encodes with",
     "format-agreement clauses of C13; value round trips, SIMD/scalar byte identity and buffered refill behaviour are not decided",
     "DESIGN.md section 4 C13, section 3 R-PAIR")
-for _pid, _what in (("C04", "select1/select0 refuse k >= count; positions checked before unchecked word access"),
-                    ("C09", "indexed accessors of the compressed integer containers refuse reads past the end"),
-                    ("C10", "index parameters are guarded before unchecked access; push/pop examine fullness/emptiness before touching a slot")):
+for _pid, _what, _extra_t, _extra_w in (
+        ("C04", "select1/select0 refuse k >= count; positions checked before unchecked word access",
+         "; who-writes rule on BitVector.len / .blocks in shrinking methods (R-SHRINK)",
+         "; BitVector's pop/resize/clear clear the storage they vacate (whole-word popcounts rely on it)"),
+        ("C09", "indexed accessors of the compressed integer containers refuse reads past the end",
+         "; chunks_exact tail-handling rule (R-REMAINDER)",
+         "; no chunked scan of the values ignores its remainder"),
+        ("C10", "index parameters are guarded before unchecked access; push/pop examine fullness/emptiness before touching a slot",
+         "; wrapped-cursor store rule (R-WRAP), empty-by-construction range rule (R-EMPTYRANGE), sync-before-remap ordering (R-ORDER)",
+         "; ring cursors are only stored wrapped; drop loops of shrinking operations are not empty by construction; MmapVec "
+         "writes its mapping back before re-reading the file")):
     CLAIMED[_pid] = (
-        "MIR dominating-guard analysis in refusal form (parameter taint with struct fields as trusted state; state tests before raw effects)",
-        "static rule over MIR deciding ONLY the refusal clause: " + _what,
-        "one clause only; the numeric / sequence-equality substance of the property is value-level and explicitly not decided",
-        "DESIGN.md section 4 %s, section 3 R-GUARD (refusal form)" % _pid)
+        "MIR dominating-guard analysis in refusal form (parameter taint with struct fields as trusted state; state tests before raw effects)" + _extra_t,
+        "static rules over MIR deciding the refusal clause: " + _what + _extra_w,
+        "structural clauses only; the numeric / sequence-equality substance of the property is value-level and explicitly not decided",
+        "DESIGN.md section 4 %s, section 3 R-GUARD (refusal form), section 10.5" % _pid)
 CLAIMED["C01"] = (
-    "MIR lookup-miss discipline on encode paths (R-MISS, incl. truncating clamps) and model/framing layout agreement (R-PAIR)",
+    "MIR lookup-miss discipline on encode paths (R-MISS, incl. truncating clamps), model/framing layout agreement (R-PAIR) and "
+    "sibling agreement of the single-stream fallback test between encoder and decoder (R-SIBLING.fallback)",
     "static rules over MIR: the miss edge of every code lookup on an encode path must reach Err / a fallback lookup before the "
     "next iteration or a normal return (all-zero table entries count as the unset marker); serialize/deserialize pairs of the "
     "entropy models agree on widths and order",
-    "two structural clauses of C01; prefix-freeness, normalisation arithmetic, chunk boundaries, renormalisation and the round trip are not decided",
+    "three structural clauses of C01; prefix-freeness, normalisation arithmetic, chunk boundaries, renormalisation and the round trip are not decided",
     "DESIGN.md section 4 C01, section 3 R-MISS / R-PAIR")
 CLAIMED["C02"] = (
     "MIR layout-event agreement per match-type arm at byte and bit level (R-PAIR), tag->variant tables, store/load path symmetry "
-    "with devirtualisation of dyn fields by who-may-write (R-SYM)",
+    "with devirtualisation of dyn fields by who-may-write (R-SYM), tag/payload-kind correlation over framing sites (R-TAGKIND)",
     "static rules over MIR: per CompressionType arm the writer's operand layout equals the reader's; tag k decodes to the variant "
     "with discriminant k; every compress path (incl. raw fallback) has an inverse path in decompress for every impl Compressor and "
     "the hybrid / real-time front ends",
